@@ -63,7 +63,7 @@ def py_keyerror_clean(res):
 def run(tier="quick", seed=0, use_cache=True):
     res = engine.Result("C01")
     res.rules = ["NONE-ORD", "SEARCH-DEFUSE", "SEARCH-BRANCH", "CONV-BEFORE-MUT",
-                 "KEYERROR-AFTER-MUT", "GROW-ROLLBACK", "UNLINK-STATUS", "ALIAS-GUARD", "PY-TAINT", "FIRSTBUCKET-INV", "SEP-REFRESH"]
+                 "KEYERROR-AFTER-MUT", "GROW-ROLLBACK", "UNLINK-STATUS", "ALIAS-GUARD", "PY-TAINT", "FIRSTBUCKET-INV", "SEP-REFRESH", "PY-DEL-TAIL"]
     res.explanation = (
         "Structural necessary conditions of sorted-map behaviour, decided "
         "from source for all 22 translation units and the Python classes: "
@@ -112,6 +112,8 @@ def run(tier="quick", seed=0, use_cache=True):
     od.search_py(res)
     pytaint.check(res)
     unlink.py_rules(res)
+    from ..rules import pydeltail
+    pydeltail.py_check(res)
     py_keyerror_clean(res)
     tmp = engine.Result("C01")
     setwiring.py_rules(tmp)
